@@ -106,6 +106,10 @@ def sink(*a, **k): return None
 def ctx(v=None):
     yield v
 def alt_callee(p, q=1, *, r=2): return None
+def wrapping(f):
+    @functools.wraps(f)
+    def _w(*a_, **k_): return f(*a_, **k_)
+    return _w
 def passthrough(f):
     return f
 '''
@@ -197,7 +201,11 @@ def gen_program(case_seed, force=None):
         ctx = force.get('ctx') or rnd.choice(CONTEXTS)
         if ctx == 'return' and ci != ncalls - 1:
             ctx = 'assign'
-        calls.append(dict(pi=pi, n=n, names=names, star=star, dstar=dstar, ctx=ctx,
+        dress = None
+        if route in ('global', 'closure', 'attr', 'inner_partial', 'callobj', 'param_partial') and 'taints' not in force \
+                and rnd.random() < 0.12:
+            dress = rnd.choice(('lru_cache', 'wraps'))
+        calls.append(dict(pi=pi, n=n, names=names, star=star, dstar=dstar, ctx=ctx, dress=dress,
                           nested=ctx in NESTED_CONTEXTS, lead=[rnd.choice(('0', '0', 'None')) for _ in range(max(n, 2))][:n]))
     # a taint inside the forwarding call's own arguments: Python evaluates the explicit arguments before it
     # unpacks **kwargs, so `callee(kwargs.pop("k", None), **kwargs)` forwards a dict that was mutated first
@@ -394,6 +402,13 @@ def assemble(route, po, calls, body, decorate=False, modifier=None):
     ind = lambda lines, k=1: textwrap.indent('\n'.join(lines), '    ' * k)
     src = PRELUDE
     defs = ''.join('def callee%d(%s): return None\n' % (i, sigs.render(c['pi'])) for i, c in enumerate(calls))
+    # a callee may be "dressed": wrapped by functools.lru_cache (a C object carrying __wrapped__ that has no
+    # signature of its own once stripped) or by a functools.wraps pass-through wrapper
+    for i, c in enumerate(calls):
+        if c.get('dress') == 'lru_cache':
+            defs += 'callee%d = functools.lru_cache(maxsize=None)(callee%d)\n' % (i, i)
+        elif c.get('dress') == 'wraps':
+            defs += 'callee%d = wrapping(callee%d)\n' % (i, i)
     n = len(calls)
     if route == 'global' or route == 'inner_partial':
         src += defs + deco + 'def outer(%s):\n%s\ntarget = outer\nraw_outer = outer\n' % (ostr, ind(body))
@@ -507,6 +522,10 @@ def own_signature(meta, g):
     return signatures.signature(raw)
 
 
+class CalleeRetrievalRaises(Exception):
+    pass
+
+
 def expected_alternatives(meta, g):
     """All signatures the statement of C06 admits for this program, as a list of
     (tag, signature-or-'plain').  More than one when a taint is 'either', when
@@ -523,6 +542,9 @@ def expected_alternatives(meta, g):
     out = []
     for combo in itertools.product(*choices):
         out.extend(expected_for(meta, g, osig, combo))
+    broken = [s for tag, s in out if tag == 'callee-retrieval-raises']
+    if broken:
+        raise CalleeRetrievalRaises(broken[0])
     # de-duplicate
     uniq = []
     for tag, s in out:
@@ -558,8 +580,9 @@ def expected_for(meta, g, osig, combo):
             return [('callee-is-only-a-default', 'plain')]
         try:
             isig = sigtools.signature(callee)
-        except Exception:
-            return [('callee-unresolvable', 'plain')]
+        except Exception as e:
+            # every callee of the grammar is an introspectable def, possibly dressed: "cannot be resolved" never applies
+            return [('callee-retrieval-raises', e)]
         try:
             sigs_.append(signatures.forwards(
                 osig, isig, c['n'], *c['names'], use_varargs=use_va, use_varkwargs=use_kw,
@@ -729,9 +752,17 @@ def check_program(ctx, case_seed, want=('C05', 'C06', 'C07'), force=None, varian
     # ---------------- C06: discovery == declaration
     if 'C06' in want:
         ctx.count('C06.compared')
-        alts = expected_alternatives(meta, g)
-        ok = any(matches(S, a, meta, g, plain) for tag, a in alts)
-        if ok:
+        try:
+            alts = expected_alternatives(meta, g)
+        except CalleeRetrievalRaises as e:
+            ctx.violation('C06', 'AutoBoundary', 'callee-retrieval-raises-%s' % type(e.args[0]).__name__,
+                          'sigtools.signature raised on a callee of the program (an introspectable def, possibly wrapped by lru_cache / functools.wraps)',
+                          dict(w, exception=repr(e.args[0]), discovered=show(S)), rp)
+            alts = None
+        ok = alts is None or any(matches(S, a, meta, g, plain) for tag, a in alts)
+        if alts is None:
+            pass
+        elif ok:
             if len(alts) > 1:
                 ctx.count('C06.accepted_one_of_several')
         else:
@@ -861,7 +892,10 @@ def requery_after_rebinding(ctx, meta, g, want, w, rp):
         return
     plain = signatures.signature(target)
     if 'C06' in want:
-        alts = expected_alternatives(m2, g)
+        try:
+            alts = expected_alternatives(m2, g)
+        except CalleeRetrievalRaises:
+            return              # reported by the main comparison
         if not any(matches(S2, a, m2, g, plain) for tag, a in alts):
             ctx.violation('C06', 'AutoBoundary', 'stale-after-rebinding@' + meta['route'],
                           'after the callee was rebound, the discovered signature is not the declaration of the forwarding to the new callee',
@@ -880,7 +914,10 @@ def classify_nonname(ctx, meta, g, S, plain):
         return None
     m2 = copy.deepcopy(meta)
     m2['taints'] = [t for t in m2['taints'] if t['cls'] != 'nonname']
-    alts = expected_alternatives(m2, g)
+    try:
+        alts = expected_alternatives(m2, g)
+    except CalleeRetrievalRaises:
+        return None
     if any(matches(S, a, m2, g, plain) for tag, a in alts):
         return 'nonname-binding-' + labels[0]
     return None
